@@ -186,6 +186,12 @@ pub mod inv {
 
     /// a persistent store right after an acknowledged flush (nothing queued, no retirement pending)
     pub fn after_flush(store: &FeoxStore, path: &str) -> Vec<Finding> {
+        after_flush_opt(store, path, true)
+    }
+
+    /// `persisted`: the flush itself rewrote the metadata (an explicit flush; not a recovery, which leaves the
+    /// counters of the previous session on the device until the next flush)
+    pub fn after_flush_opt(store: &FeoxStore, path: &str, persisted: bool) -> Vec<Finding> {
         let mut out = vec![];
         if store.verif_is_memory_only() { return out; }
         let blocks = (store.verif_device_size() / BS as u64) as usize;
@@ -230,6 +236,27 @@ pub mod inv {
         }
         if store.verif_disk_usage() != live_blocks * BS as u64 {
             out.push(Finding { props: own, what: format!("disk usage counter {} != live total {} (format v{})", store.verif_disk_usage(), live_blocks * BS as u64, version) });
+        }
+        // the persisted counters: the newest valid metadata copy on the device says what the store says
+        if let Some(img) = std::fs::read(path).ok().filter(|_| persisted) {
+            use feoxdb::storage::metadata::Metadata;
+            let copy = |b: usize| -> Option<Metadata> {
+                let o = b * BS;
+                if o + BS > img.len() { return None; }
+                Metadata::from_bytes(&img[o..o + BS]).filter(|m| m.validate())
+            };
+            let newest = match (copy(0), copy(7)) {
+                (Some(a), Some(b)) => Some(if feoxdb::verif::pure::metadata_generation(&b) > feoxdb::verif::pure::metadata_generation(&a) { b } else { a }),
+                (a, b) => a.or(b),
+            };
+            match newest {
+                None => out.push(Finding { props: &["C05", "C10"], what: "after an acknowledged flush neither metadata copy on the device is valid".into() }),
+                Some(m) => {
+                    if m.total_records != store.len() as u64 || m.total_size != store.verif_disk_usage() {
+                        out.push(Finding { props: &["C05", "C10"], what: format!("after an acknowledged flush the newest metadata copy on the device says {} records / {} bytes, the store holds {} records / {} bytes", m.total_records, m.total_size, store.len(), store.verif_disk_usage()) });
+                    }
+                }
+            }
         }
         // MarkOK: no valid retirement marker in a free block claims a block of a published record
         if version >= 3 {
